@@ -442,7 +442,7 @@ impl Engine for C07 {
     fn runs(&self, tier: Tier) -> u64 {
         match tier {
             Tier::Quick => 40_000,
-            Tier::Thorough => 1_500_000,
+            Tier::Thorough => 1_000_000,
         }
     }
 
